@@ -234,14 +234,14 @@ def run(tier, seed):
     ctx = mp.get_context("fork")
     # parent must stay free of cpu modules: everything ISA specific happens in children
     with ctx.Pool(core.NPROC, initializer=core._init_worker, maxtasksperchild=1) as pool:
-        menus = pool.map(menu_unit, modes, 1)
+        menus = core._watched_map(pool, menu_unit, modes, 1)
         ref_jobs = [(isa, mode, h) for (isa, mode), menu in zip(modes, menus) for (c, h) in menu]
-        ref_out = pool.map(ref_unit, ref_jobs, 1)
+        ref_out = core._watched_map(pool, ref_unit, ref_jobs, 1)
         refs = {}
         for (isa, mode, h), o in zip(ref_jobs, ref_out):
             refs.setdefault((isa, isas.mode_name(mode)), {})[h] = o
         jobs = [(isa, mode, menu, refs[(isa, isas.mode_name(mode))], depth) for (isa, mode), menu in zip(modes, menus)]
-        res = pool.map(explore_mode, jobs, 1)
+        res = core._watched_map(pool, explore_mode, jobs, 1)
     seqs = calls = 0
     allstates = 0
     per = []
